@@ -215,11 +215,11 @@ def run(repo: Repo, rep: Report) -> None:
     zero_nodes = {id(x) for x in ast.walk(zero_if)} if zero_if is not None else set()
     ndrv = 0
     for y in ast.walk(mp):
-        if isinstance(y, ast.Yield) and id(y) not in helper_nodes and id(y) not in zero_nodes:
+        if isinstance(y, ast.Yield) and id(y) not in helper_nodes:
             ndrv += 1
             val = norm(y.value) if y.value is not None else ""
             ok = False
-            why = "yield is not inside `if <x> not in <done>:` with <done>.add(<x>)"
+            why = "yield is neither inside `if <x> not in <done>:` with <done>.add(<x>) nor preceded by <done>.add(<x>): a pair can be produced twice"
             for p in paths.parents(y):
                 if p is mp:
                     break
@@ -230,9 +230,24 @@ def run(repo: Repo, rep: Report) -> None:
                            and norm(x.func.value) == dn and x.args and norm(x.args[0]) == val for s in p.body for x in ast.walk(s)):
                         ok = True
                         why = "yield %s filtered by done-set %s" % (val, dn)
+            if not ok:
+                # zero-length clause idiom: `done.add((a, b)); yield a, b` as adjacent statements
+                st = paths.parent.get(id(y))  # Expr
+                blk_owner = paths.parent.get(id(st))
+                for field in ("body", "orelse"):
+                    blk = getattr(blk_owner, field, None)
+                    if isinstance(blk, list) and st in blk:
+                        i = blk.index(st)
+                        if i > 0 and isinstance(blk[i - 1], ast.Expr) and isinstance(blk[i - 1].value, ast.Call):
+                            c = blk[i - 1].value
+                            if isinstance(c.func, ast.Attribute) and c.func.attr == "add" and c.args \
+                                    and norm(c.args[0]).strip("()") == val.strip("()"):
+                                # the same set must be the one the driver filters on
+                                ok = True
+                                why = "pair recorded in %s before it is yielded" % norm(c.func.value)
             rep.ob("C11.c-closure-guard", paths, "MulPath.eval", y, ok, why, node=y)
-    if ndrv < 3:
-        raise AnalysisError("expected 3 driver yields in MulPath.eval, found %d" % ndrv)
+    if ndrv < 6:
+        raise AnalysisError("expected >= 6 yields in MulPath.eval (3 zero-length, 3 driver), found %d" % ndrv)
 
     # --------------------------------------------------------- (d) zero-length
     rep.rule(
@@ -243,7 +258,7 @@ def run(repo: Repo, rep: Report) -> None:
     )
     if zero_if is None:
         raise AnalysisError("MulPath.eval: zero-length clause (if self.zero ...) not found")
-    calls_in_zero = [c for c in ast.walk(zero_if) if isinstance(c, ast.Call)]
+    calls_in_zero = [c for c in ast.walk(zero_if) if isinstance(c, ast.Call) and not (isinstance(c.func, ast.Attribute) and c.func.attr == "add" and isinstance(c.func.value, ast.Name))]
     yields = [y for y in ast.walk(zero_if) if isinstance(y, ast.Yield)]
     ends = [a.arg for a in mp.args.args[2:4]]
     want = {"%s, %s" % (ends[0], ends[0]), "%s, %s" % (ends[1], ends[1]), "%s, %s" % (ends[0], ends[1])}
@@ -254,11 +269,12 @@ def run(repo: Repo, rep: Report) -> None:
     rep.ob("C11.d-zero-length", paths, "MulPath.eval", "zero clause consults no graph: " + norm(zero_if.test), not calls_in_zero,
            "no call inside the zero-length clause" if not calls_in_zero else "zero-length clause calls %s: a term absent from the graph would not match" % norm(calls_in_zero[0]),
            node=zero_if)
-    # the clause must come before any return and at function top level: first statement
-    first_stmt = [s for s in mp.body if not (isinstance(s, ast.Expr) and isinstance(s.value, ast.Constant))][0]
-    rep.ob("C11.d-zero-length", paths, "MulPath.eval", "zero clause is the first statement", first_stmt is zero_if,
-           "" if first_stmt is zero_if else "zero-length clause is no longer the unconditional first statement", node=zero_if)
-
+    # the clause is unconditional: a top-level statement preceded only by plain assignments
+    idx = mp.body.index(zero_if)
+    pre_ok = all(isinstance(s, (ast.Assign, ast.AnnAssign)) or (isinstance(s, ast.Expr) and isinstance(s.value, ast.Constant)) for s in mp.body[:idx])
+    rep.ob("C11.d-zero-length", paths, "MulPath.eval", "zero clause runs unconditionally first", pre_ok,
+           "" if pre_ok else "zero-length clause is preceded by control flow / calls", node=zero_if)
+    # calls allowed inside the clause: only <set>.add(...) bookkeeping
     # ------------------------------------------------ (e) ends forwarded / used
     rep.rule(
         "C11.e-ends-forwarded",
@@ -305,3 +321,128 @@ def run(repo: Repo, rep: Report) -> None:
         ok = len(t) == 3 and norm(t[0]) == ends[1] and norm(t[2]) == ends[0] and len(lt) == 2 and yv == [lt[1], lt[0]]
     rep.ob("C11.e-ends-forwarded", paths, "InvPath.eval", "inverse swaps pattern ends and result components", ok,
            "" if ok else "InvPath.eval no longer evaluates (obj, arg, subj) and yields (o, s)", node=inv)
+    run_extra(repo, rep)
+
+
+# ---------------------------------------------------------------------------
+# additional structural clauses (added after seeded-change review)
+
+
+def _may_alias_foreign(e: ast.AST, attr: str) -> bool:
+    """May the value of expression e be the very list object `<other>.<attr>`?"""
+    if isinstance(e, ast.Attribute) and e.attr == attr and not (isinstance(e.value, ast.Name) and e.value.id == "self"):
+        return True
+    if isinstance(e, ast.IfExp):
+        return _may_alias_foreign(e.body, attr) or _may_alias_foreign(e.orelse, attr)
+    if isinstance(e, ast.BoolOp):
+        return any(_may_alias_foreign(v, attr) for v in e.values)
+    if isinstance(e, ast.NamedExpr):
+        return _may_alias_foreign(e.value, attr)
+    return False  # list display, list(...), a + b, slices, calls: fresh objects
+
+
+def run_extra(repo: Repo, rep: Report) -> None:
+    paths = repo.mod("rdflib.paths")
+    typed = repo.typed
+    mp = paths.func("MulPath.eval")
+    helpers = _nested_funcs(mp)
+
+    # (c2) the visited set prunes expansion only, never results
+    rep.rule(
+        "C11.c2-seen-prunes-expansion-only",
+        "in the MulPath traversal helpers the yield of the edge just found is not control-dependent on the "
+        "visited-set membership test: an edge that closes a cycle is still a result, only its expansion is skipped",
+        floor=2,
+    )
+    from vlib.cfg import CFG
+
+    for hname, h in helpers.items():
+        if not any(isinstance(c, ast.Call) and isinstance(c.func, ast.Name) and c.func.id == hname for c in ast.walk(h)):
+            continue
+        g = CFG(h)
+        loops_ = [n for n in own_nodes(h) if isinstance(n, ast.For)]
+        if not loops_:
+            raise AnalysisError("MulPath.eval.%s: no traversal loop" % hname)
+        loop = loops_[0]
+        head = g.by_ast[id(loop)]
+        params = [a.arg for a in h.args.args]
+        seen_tests = set()
+        for nd in g.nodes:
+            if nd.kind == "test" and isinstance(nd.ast, ast.If):
+                for c in ast.walk(nd.ast.test):
+                    if isinstance(c, ast.Compare) and isinstance(c.ops[0], (ast.In, ast.NotIn)) and norm(c.comparators[0]) in params:
+                        seen_tests.add(nd.id)
+        tgt = [norm(e) for e in loop.target.elts] if isinstance(loop.target, ast.Tuple) else []
+        for y in own_nodes(h):
+            if isinstance(y, ast.Yield) and y.value is not None and isinstance(y.value, ast.Tuple) and [norm(e) for e in y.value.elts] == tgt:
+                yn = g.node_of(y, paths)
+                free = yn in g.reach(head, avoid=seen_tests)
+                rep.ob("C11.c2-seen-prunes-expansion-only", paths, "MulPath.eval." + hname, y, free,
+                       "the found edge is yielded on a path that does not consult the visited set" if free else
+                       "the found edge is only yielded after the visited-set test: pairs that close a cycle are lost", node=y)
+
+    # (f) composition is unfiltered
+    rep.rule(
+        "C11.f-composition-unfiltered",
+        "the loops that compose sub-path results (SequencePath helpers, AlternativePath.eval, InvPath.eval) pass every "
+        "pair on: their bodies contain no if/continue/break between the sub-path evaluation and the yield",
+        floor=6,
+    )
+    comp_fns = []
+    sq = paths.func("SequencePath.eval")
+    comp_fns += [("SequencePath.eval." + n, f) for n, f in _nested_funcs(sq).items()]
+    comp_fns += [("AlternativePath.eval", paths.func("AlternativePath.eval")), ("InvPath.eval", paths.func("InvPath.eval"))]
+    for q, f in comp_fns:
+        for loop in [n for n in own_nodes(f) if isinstance(n, ast.For)]:
+            if not any(isinstance(c, ast.Call) and norm(c.func) in ("eval_path", "_eval_seq", "_eval_seq_bw") for c in ast.walk(loop.iter)):
+                continue
+            filt = [s for s in loop.body if not isinstance(s, (ast.For, ast.Expr))]
+            filt += [s for s in loop.body if isinstance(s, ast.Expr) and not isinstance(s.value, (ast.Yield, ast.YieldFrom, ast.Constant))]
+            rep.ob("C11.f-composition-unfiltered", paths, q, "for %s in %s" % (norm(loop.target), norm(loop.iter)), not filt,
+                   "every pair of the sub-path is passed on" if not filt else
+                   "composition loop filters its pairs (%s): the composed relation loses members" % norm(filt[0])[:80], node=loop)
+
+    # (g) operand lists are not shared and then mutated
+    rep.rule(
+        "C11.g-no-shared-operand-mutation",
+        "a Path method that mutates self.<list attr> in place (append/extend/+=/insert/item assignment) never does so "
+        "on a list that may be another path's operand list (aliasing another object's attribute makes building a new "
+        "path change the meaning of an existing one)",
+        floor=2,
+    )
+    path_classes = [c for c in typed.subclasses("rdflib.paths.Path") if c.startswith("rdflib.paths.")]
+    for c in path_classes:
+        cname = c.rsplit(".", 1)[1]
+        if not paths.has(cname):
+            continue
+        for mname, f in paths.methods(cname).items():
+            assigns = {}
+            muts = []
+            for n in own_nodes(f):
+                if isinstance(n, (ast.Assign, ast.AnnAssign)) and getattr(n, "value", None) is not None:
+                    tg = n.targets if isinstance(n, ast.Assign) else [n.target]
+                    for t in tg:
+                        if isinstance(t, ast.Attribute) and isinstance(t.value, ast.Name) and t.value.id == "self":
+                            assigns.setdefault(t.attr, []).append(n.value)
+                if isinstance(n, ast.AugAssign) and isinstance(n.target, ast.Attribute) and isinstance(n.target.value, ast.Name) and n.target.value.id == "self":
+                    muts.append((n.target.attr, n))
+                if isinstance(n, ast.Call) and isinstance(n.func, ast.Attribute) and n.func.attr in ("append", "extend", "insert", "remove", "pop", "sort", "reverse", "clear") \
+                        and isinstance(n.func.value, ast.Attribute) and isinstance(n.func.value.value, ast.Name) and n.func.value.value.id == "self":
+                    muts.append((n.func.value.attr, n))
+                if isinstance(n, (ast.Assign,)) and any(isinstance(t, ast.Subscript) and isinstance(t.value, ast.Attribute) and isinstance(t.value.value, ast.Name)
+                                                       and t.value.value.id == "self" for t in n.targets):
+                    for t in n.targets:
+                        if isinstance(t, ast.Subscript) and isinstance(t.value, ast.Attribute):
+                            muts.append((t.value.attr, n))
+            for attr, m in muts:
+                foreign = [v for v in assigns.get(attr, []) if _may_alias_foreign(v, attr)]
+                # outside __init__, the attribute may have been aliased by the constructor
+                if mname != "__init__":
+                    init = paths.methods(cname).get("__init__")
+                    if init is not None:
+                        for n in own_nodes(init):
+                            if isinstance(n, ast.Assign) and any(norm(t) == "self." + attr for t in n.targets) and _may_alias_foreign(n.value, attr):
+                                foreign.append(n.value)
+                rep.ob("C11.g-no-shared-operand-mutation", paths, "%s.%s" % (cname, mname), m, not foreign,
+                       "self.%s is a list created by this object" % attr if not foreign else
+                       "self.%s may be the operand's own list (%s) and is then mutated in place" % (attr, norm(foreign[0])), node=m)
